@@ -33,7 +33,7 @@ TOL = 1e-6
 
 def floors(tier):
     return {"trajectories": 200, "evaluations_compared": 2500, "multi_trial_searches_compared": 150, "probes": 80, "probe_evaluations_compared": 300,
-            "constant_probes": 10, "trajectories_with_gradient_reusing_forward_state": 50, "trajectories_with_starved_line_searches": 300, "trajectories_stopped_by_a_callback_and_continued_from_the_result": 40, "failed_searches_compared_through": 3, "box_final_values_compared": 60, "__nontrivial__": 120}
+            "constant_probes": 10, "trajectories_with_gradient_reusing_forward_state": 50, "trajectories_with_starved_line_searches": 300, "trajectories_with_an_optimisation_nested_in_the_objective": 30, "trajectories_with_inert_differencing_settings": 30, "trajectories_stopped_by_a_callback_and_continued_from_the_result": 40, "failed_searches_compared_through": 3, "box_final_values_compared": 60, "__nontrivial__": 120}
 
 
 def cases(tier, seed):
@@ -47,6 +47,7 @@ def cases(tier, seed):
                "fscale": float(10.0 ** rng.uniform(0, 13)) if i % 5 == 1 else 1.0, "prior_is_x0": bool(i % 7 == 2), "adjoint": bool(i % 4 == 3),
                "maxls": int(gen.pick(rng, [1, 2, 2, 3])) if i % 3 == 1 else 20, "maxiter": 30 if i % 3 == 1 else 12,
                "stop_at_callback": int(rng.integers(1, 6)) if i % 4 == 2 else None,
+               "nested": bool(i % 6 == 1), "inert_fd": float(gen.pick(rng, [1e-3, 1e-2, 0.1])) if i % 5 == 4 else None,
                "xunit": None}  # (variables in units of 1e-13..1e-17 were tried: the unit-length first trial of iteration 0 is then 1e13 units long and the
         #  interpolated second trial is ill-conditioned in both implementations - not comparable; the wrapper-level effects of such scales are C15's)
     # starved line searches on a scaled Rosenbrock valley: a search that uses its two evaluations without finding a lower value makes
@@ -107,7 +108,7 @@ def scipy_trace(f, g, x0, maxcor, maxiter=12, bounds=None, gtol=1e-14, maxls=20)
     return pts, vals, res
 
 
-def port_trace(f, g, x0, maxcor, maxiter=12, hostile=False, x0_same_object=False, maxls=20, stop_at_callback=None):
+def port_trace(f, g, x0, maxcor, maxiter=12, hostile=False, x0_same_object=False, maxls=20, stop_at_callback=None, nested=False, inert_fd=None):
     """Runs the port with interception of its line searches; returns (points, searches).
     hostile: the user's gradient is written into one reused work array (as many simulation codes do)."""
     import lbfgsb.main as M
@@ -115,13 +116,24 @@ def port_trace(f, g, x0, maxcor, maxiter=12, hostile=False, x0_same_object=False
 
     pts = []
     searches = []
+    inner = {"on": False}  # True while the nested optimisation of the objective runs: its own line searches and updates are not the port's
 
     def fun(x):
         xr = np.array(x, copy=True)
         pts.append(xr)
+        if nested:
+            # the objective runs a small, unrelated optimisation of its own at every evaluation (a value-function / bilevel objective)
+            c_in = np.array([0.3, -0.7])
+            inner["on"] = True
+            try:
+                minimize_lbfgsb(x0=np.array([2.0, 1.5]), fun=lambda z: float(np.sum((z - c_in) ** 4) + z @ z), jac=lambda z: 4 * (z - c_in) ** 3 + 2 * z,
+                                maxiter=3, maxcor=2)
+            finally:
+                inner["on"] = False
         return f(xr)
 
     def pre(ev):
+        ev["inner"] = inner["on"]
         ev["first_eval"] = len(pts)
         X = (ev.get("live") or {}).get("X")
         if ev["name"] == "update_lbfgs_matrices" and X is not None and len(X):
@@ -136,6 +148,8 @@ def port_trace(f, g, x0, maxcor, maxiter=12, hostile=False, x0_same_object=False
     consts = {"skipped_updates_at_eval": []}
 
     def on_event(ev):
+        if ev.get("inner"):
+            return
         if ev["name"] == "line_search":
             post(ev)
         else:
@@ -174,6 +188,8 @@ def port_trace(f, g, x0, maxcor, maxiter=12, hostile=False, x0_same_object=False
                 return gbuf["b"]
 
             kw = dict(fun=fun, jac=jac, maxcor=maxcor, ftol=0.0, gtol=1e-14, maxiter=maxiter, maxls=maxls)
+            if inert_fd is not None:
+                kw.update(eps=inert_fd, finite_diff_rel_step=inert_fd)  # differencing settings: inert with an analytic gradient
             if stop_at_callback is None:
                 res = minimize_lbfgsb(x0=(x0 if x0_same_object else np.array(x0, copy=True)), **kw)
             else:
@@ -389,7 +405,12 @@ def run(spec):
         if mls != 20:
             out.count("trajectories_with_starved_line_searches")
         ppts, searches, pres, consts, ic = port_trace(fobj, gobj, x0_port, spec["maxcor"], hostile=bool(spec.get("hostile")), x0_same_object=bool(spec.get("prior_is_x0")),
-                                                      maxls=mls, maxiter=mit, stop_at_callback=spec.get("stop_at_callback"))
+                                                      maxls=mls, maxiter=mit, stop_at_callback=spec.get("stop_at_callback"),
+                                                      nested=bool(spec.get("nested")), inert_fd=spec.get("inert_fd"))
+        if spec.get("nested"):
+            out.count("trajectories_with_an_optimisation_nested_in_the_objective")
+        if spec.get("inert_fd") is not None:
+            out.count("trajectories_with_inert_differencing_settings")
         if consts.get("stopped_by_callback_at_eval") is not None:
             out.count("trajectories_stopped_by_a_callback_and_continued_from_the_result")
         if spec.get("hostile"):
